@@ -308,3 +308,30 @@ func hostileStream(ch *Choices) ([]byte, string) {
 		return b.Bytes(), fmt.Sprintf("chain of %d objects linked by back-references", n)
 	}
 }
+
+// foreignEvolvedObject encodes an instance of zoo class K10 ({A int32}) the way a peer with a NEWER
+// version of the class would: the class definition lists extra fields the Go struct does not have
+// (legal: unknown fields are skipped). The extra field names are drawn, so that they are new to the
+// process. The extra fields come last and carry one-octet values.
+func foreignEvolvedObject(ch *Choices) []byte {
+	var b bytes.Buffer
+	cls := []string{"K10", "K11", "K12", "K13"}[ch.Intn(4, "evo.cls")]
+	extra := 1 + ch.Intn(3, "evo.nextra")
+	b.WriteByte('C')
+	b.WriteByte(byte(len(cls)))
+	b.WriteString(cls)
+	b.WriteByte(byte(0x90 + 1 + extra))
+	b.WriteByte(1)
+	b.WriteString("a")
+	for i := 0; i < extra; i++ {
+		name := fmt.Sprintf("x%d", ch.Intn(1<<20, "evo.name"))
+		b.WriteByte(byte(len(name)))
+		b.WriteString(name)
+	}
+	b.WriteByte(0x60)
+	b.WriteByte(byte(0x90 + ch.Intn(40, "evo.a")))
+	for i := 0; i < extra; i++ {
+		b.WriteByte(0x91)
+	}
+	return b.Bytes()
+}
